@@ -18,6 +18,7 @@ import (
 	"time"
 
 	"github.com/emersion/go-imap/v2"
+	"github.com/emersion/go-sasl"
 	nd "github.com/emersion/go-imap/v2/internal/zzverif/nd"
 )
 
@@ -44,6 +45,7 @@ type c10conn struct {
 	stalled  bool
 	deadline bool
 	idleSpins int
+	maxRead   int
 }
 
 var errC10Reset = errors.New("verif: connection reset by peer")
@@ -74,6 +76,9 @@ func (c *c10conn) Read(p []byte) (int, error) {
 			limit = c.cut
 		}
 		if c.pos < limit {
+			if c.maxRead > 0 && len(p) > c.maxRead {
+				p = p[:c.maxRead]
+			}
 			n := copy(p, c.stream[c.pos:limit])
 			c.pos += n
 			return n, nil
@@ -237,7 +242,24 @@ func c10transcript(ti int) []c10step {
 				_, err := c.Move(imap.SeqSetNum(1), "a").Wait()
 				return err
 			}}}
-	default: // STARTTLS refused, LOGIN with a literal password (continuation), UNSELECT
+	case 7: // one FETCH response with more data items than the hand-off buffer holds
+		many := "* 1 FETCH (UID 7"
+		for i := 0; i < 34; i++ {
+			many += " FLAGS (\\Seen)"
+		}
+		many += " BODY[] {3}\r\nabc RFC822.SIZE 3)\r\n"
+		return []c10step{login, sel,
+			{"T3 FETCH", many + "* 2 FETCH (UID 8)\r\nT3 OK done\r\n", func(c *Client) error {
+				_, err := c.Fetch(imap.SeqSetNum(1, 2), &imap.FetchOptions{Flags: true, UID: true, BodySection: []*imap.FetchItemBodySection{{}}}).Collect()
+				return err
+			}},
+			{"T4 NOOP", "T4 OK n\r\n", func(c *Client) error { return c.Noop().Wait() }}}
+	case 6: // AUTHENTICATE PLAIN without SASL-IR (empty challenge, then the response), NOOP
+		return []c10step{
+			{"T1 AUTHENTICATE PLAIN\r\n", "+ \r\n", nil},
+			{"AHUAcA==\r\n", "T1 OK [CAPABILITY IMAP4rev1 IDLE] in\r\n", func(c *Client) error { return c.Authenticate(sasl.NewPlainClient("", "u", "p")) }},
+			{"T2 NOOP", "T2 OK n\r\n", func(c *Client) error { return c.Noop().Wait() }}}
+	default: // LOGIN with a literal password (continuation), STORE closed early, CLOSE
 		return []c10step{
 			{"T1 LOGIN u {2}\r\n", "+ ok\r\n", nil},
 			{"p\xff\r\n", "T1 OK [CAPABILITY IMAP4rev1 IDLE] in\r\n", func(c *Client) error { return c.Login("u", "p\xff").Wait() }},
@@ -260,7 +282,7 @@ func sel2(tag string) c10step {
 // are symbolic.
 func VerifC10Cut() {
 	steps := c10transcript(nd.Param("t"))
-	vc := &c10conn{closeCh: make(chan struct{}), cut: -1, wcut: -1}
+	vc := &c10conn{closeCh: make(chan struct{}), cut: -1, wcut: -1, maxRead: nd.Param("chunk")}
 	vc.replies = append(vc.replies, c10greet)
 	vc.markers = append(vc.markers, "")
 	total := len(c10greet)
